@@ -31,7 +31,7 @@ Qed.
 Lemma rd_zero m f f' i' : rd (zero m f) f' i' = if f' =? f then 0 else rd m f' i'.
 Proof.
   unfold rd, zero. destruct (N.eqb_spec f' f) as [->|Hf].
-  - rewrite get_tbl_add_same. unfold tbl_get. cbn [fst snd]. rewrite PositiveMap.gempty. reflexivity.
+  - rewrite get_tbl_add_same. unfold tbl_get. cbn [fst snd base_get]. rewrite PositiveMap.gempty. reflexivity.
   - rewrite get_tbl_add_other by exact Hf. reflexivity.
 Qed.
 
@@ -45,7 +45,7 @@ Qed.
 Lemma rd_fill m f seed f' i' : rd (fill m f seed) f' i' = if f' =? f then fill_word seed i' else rd m f' i'.
 Proof.
   unfold rd, fill. destruct (N.eqb_spec f' f) as [->|Hf].
-  - rewrite get_tbl_add_same. unfold tbl_get. cbn [fst snd]. rewrite PositiveMap.gempty. reflexivity.
+  - rewrite get_tbl_add_same. unfold tbl_get. cbn [fst snd base_get]. rewrite PositiveMap.gempty. reflexivity.
   - rewrite get_tbl_add_other by exact Hf. reflexivity.
 Qed.
 
